@@ -18,7 +18,9 @@ import (
 	rs "verifharness/ref/slip10"
 )
 
-func init() { core.Register(core.Check{ID: "C02", Level: "exploration", Run: runC02}) }
+func init() {
+	core.Register(core.Check{ID: "C02", Level: "exploration", Run: func(c *core.Ctx) { runC02(c); reentrancyPass(c, "C02") }})
+}
 
 // ---------- (c) toy curve: validity decided by a byte predicate, 3 of 4 candidates rejected ----------
 
